@@ -1,4 +1,12 @@
-"""C03 — programs accepted by the type checker run without crashes or memory errors."""
+"""C03 — programs accepted by the type checker run without crashes or memory errors.
+
+Correspondence, two oracles per case (generated well-typed programs and near-miss mutants of them):
+  * the REAL compiler + both back ends with hooks on (`runprog`): verdict accept / reject (diagnostic), and for accepted
+    programs whether they run safely with one output width;
+  * the LEAN type checker `checkProg` (proved sound: `C03_check_sound`, `C03_check_run_output_width`) on annotations guessed
+    by the unverified unification pre-pass (`drv_c03`, "infer" verdict) and on the generator's own annotations ("annotated"
+    verdict): accept with the output width / reject.
+The two verdicts are compared in both directions; every disagreement must fall into a named class (below) or is a violation."""
 import collections
 from vlib import *
 import progcheck as pc
@@ -6,7 +14,23 @@ sys.path.insert(0, os.path.join(VERIF, "tools", "gen"))
 import coregen
 
 MODULES = ["Mimium.Props.C03"]
-UNSAFE_KINDS = {"apply_var", "tup_drop", "lit_tuple", "operand_tuple", "arg_tuple", "arg_drop", "arm_tuple", "arg_add"}
+
+# mutation kinds all of whose instances the pinned real checker rejects: an accepted instance is a regression of the checker
+ALWAYS_REJECTED = {"apply_lit", "mem_tuple", "pat_arity", "proj_far", "proj_scalar", "unbound"}
+# the other kinds: the real checker accepts some instances the core type system rejects, for a documented reason:
+OUTSIDE_MODEL = {
+    "operand_tuple": "element-wise tuple arithmetic with broadcasting is a feature of the surface language (typing.rs: infer_tuple_arithmetic_binop_type); the core model's operators take numbers",
+    "lit_tuple": "tuple arithmetic / auto-spread of numeric functions over tuples / a sole tuple argument read as an argument pack",
+    "operand_lambda": "LENIENT: the real checker does not check the operand types of a binary operator against `float` (`1.0 + |q| {q}` is accepted and adds a closure handle)",
+    "apply_var": "LENIENT: same (a parameter used both as a number and as a function, `a1 + a1(1.0)`, is accepted), or the parameter's function type is simply inferred",
+    "delay_tuple": "LENIENT: the operand of `delay` is not checked against `float`",
+    "arg_tuple": "a sole tuple argument is an argument pack (`f((a, b))` = `f(a, b)`); LENIENT: a tuple unifies with a scalar parameter (root of K4/K9)",
+    "arg_drop": "default parameter values (`f()` for `fn f(a = 1.0)`); LENIENT: missing argument read as unit / partial application (K8)",
+    "arg_add": "LENIENT: arity is not checked (K10)",
+    "arm_tuple": "LENIENT: `if` arms of different shapes unify (K9)",
+    "tup_drop": "LENIENT: a tuple unifies with a scalar component (K4/K9 root): `(a, b)` is accepted for `((float, float), float)`",
+    "tup_add": "LENIENT: same",
+}
 
 
 def judge(vm, wasm, nout_decl, times):
@@ -29,15 +53,106 @@ def judge(vm, wasm, nout_decl, times):
     return None
 
 
+def lean_verdicts(cases, run_times=3):
+    """id -> (infer verdict, annotated verdict, run class) from drv_c03"""
+    inp = "".join(f"{c['id']}\t{min(run_times, c['times'])}\t{coregen.inputs_field(c['inputs'][:run_times])}\t{c['asx']}\n" for c in cases if c.get("asx"))
+    out = {}
+    if inp:
+        p = driver("C03", input=inp, timeout=3600)
+        for l in p.stdout.splitlines():
+            f = l.split("\t")
+            if len(f) >= 4:
+                out[f[0]] = (f[1], f[2], f[3])
+    return out
+
+
+def nested_output(lv):
+    """the Lean checker's output type is a tuple with a tuple component"""
+    f = lv.split(" ", 2)
+    return len(f) > 2 and f[2].count("(t") > 1
+
+
+def illtyped_class(kind, why, vm):
+    """listed finding a crashing ill-typed-but-accepted mutant belongs to (by mutation kind and symptom)"""
+    if kind == "apply_var":
+        return "K1"
+    if kind == "arg_drop":
+        return "K8"
+    if kind == "arg_add":
+        return "K10"
+    if kind == "arm_tuple":
+        return "K9"
+    if kind in ("tup_drop", "tup_add"):
+        return "K2" if "index out of bounds" in why else "K4"
+    if kind in ("lit_tuple", "operand_tuple"):
+        # the tuple reaches the dsp result (channel count 0 / run_dsp -1) or a scalar position
+        return "K3" if (vm.startswith("ok 0 0") or vm.startswith("ok 1 0") or "run_dsp returned" in why) else "K4"
+    if kind == "arg_tuple":
+        return "K4"
+    return None
+
+
+def classify(c, real, lean):
+    """-> (cell, verdict, detail): verdict in agree | outside-model | known:<id> | violation"""
+    vm, wasm = real
+    kind = c["kind"].split(":")[-1]
+    why = judge(vm, wasm, c["nout"], c["times"])
+    R = not vm.startswith("compile-error")
+    li, la, lrun = lean
+    L = li.startswith("accept")
+    sole_tuple_arg = coregen.has_sole_tuple_argument(c["prog"]) if c.get("prog") is not None else False
+    if lrun not in ("-", "fuel") and not lrun.startswith("ok"):
+        return "L+", "violation", f"the Lean checker accepted a program whose reference run fails ({lrun}) — contradicts C03_check_run_output_width"
+    if L and R and why is None and vm.startswith("ok"):
+        w, nout = int(li.split(" ")[1]), int(vm.split(" ")[2])
+        if w != nout:
+            why = f"output-width: the Lean checker gives {w} words ({li.split(' ')[2:3]}), the real runtime reports {nout} channels"
+    cell = ("L+" if L else "L-") + ("R+" if R else "R-") + ("" if why is None else "!")
+    if c["kind"] == "welltyped":
+        if not L or li != la:
+            return cell, "violation", f"generated well-typed program: Lean checker says infer=`{li}` annotated=`{la}`"
+        if li.split(" ")[-1] != "su":
+            return cell, "violation", "generated well-typed program: site identifiers are not pairwise distinct within a body (generator guarantee `SitesUnique`)"
+        if int(li.split(" ")[1]) != c["nout"]:
+            return cell, "violation", f"generated well-typed program: Lean output width {li.split(' ')[1]} but the generator declares {c['nout']}"
+        if not R:
+            return cell, "violation", "well-typed program rejected: " + vm[:200]
+        return (cell, "agree", "") if why is None else (cell, "violation", why)
+    # mutants
+    if L and R:
+        if why is None:
+            return cell, "agree", ""
+        if nested_output(li):
+            return cell, "known:K3", why
+        if sole_tuple_arg:
+            return cell, "known:K4", why
+        return cell, "violation", "a program the Lean checker accepts (well typed in the core type system) is accepted by the real checker and does not run safely: " + why
+    if L and not R:
+        if sole_tuple_arg:
+            return cell, "outside-model", "argument-pack"
+        return cell, "violation", "the Lean checker accepts, the real checker rejects: " + vm[:160]
+    if not L and not R:
+        return cell, "agree", ""
+    # Lean rejects, real accepts
+    if why is not None:
+        k = illtyped_class(kind, why, vm)
+        return (cell, "known:" + k, why) if k else (cell, "violation", f"an ill-typed `{kind}` mutant is accepted by the real checker and does not run safely: " + why)
+    if kind in ALWAYS_REJECTED:
+        return cell, "violation", f"the real checker accepts an ill-typed `{kind}` mutant (every such mutant is rejected on the pinned tree): Lean says `{li}`"
+    return cell, "outside-model", kind
+
+
 def main(ctx, args):
     ctx.assumptions += [
         "memory errors are observed through the cfg(mimium_verif) hooks (bounds assertion at every VM state access) and through debug assertions/overflow checks of the harness build; the Rust `unsafe` blocks themselves are not verified",
-        "streams: well-typed generated programs (profiles core, deep, closure_assign) and near-miss mutants obtained by type-changing mutations (tuple arity, projection index, argument count/type, unbound name, applying a non-function, mismatched if arms, tuple operands) — whatever the real type checker accepts must run safely on both backends",
+        "streams: well-typed generated programs (profiles core, deep, closure_assign) and near-miss mutants obtained by type-changing mutations (tuple arity, projection index, argument count/type, unbound name, applying a non-function, mismatched if arms, tuple/lambda operands) — whatever the real type checker accepts must run safely on both backends; the verdict of the Lean checker (proved sound) is compared with the real verdict on every case",
+        "the annotation inference in front of the Lean checker (Model/CoreInfer.lean) is not verified and need not be: C03_check_sound holds for every annotation table",
     ]
     known = load_known("C03")
+    known_ids = {k["id"] for k in known}
     if not extract(ctx):
         ctx.finish()
-    proved = prove(ctx, MODULES, drivers=["drv_prog"])
+    proved = prove(ctx, MODULES, drivers=["drv_prog", "drv_c03"])
     if proved and ctx.tier == "thorough":
         proved = leancheck(ctx, MODULES)
     if not build_harness(ctx, bins=["runprog"]):
@@ -48,7 +163,8 @@ def main(ctx, args):
     cases = []
     if args.replay:
         r = json.load(open(args.replay))
-        cases = [dict(id="replay", src=r["src"], sx=None, inputs=r.get("inputs", []), times=r.get("times", 10), nout=None, kind="replay")]
+        cases = [dict(id="replay", src=r["src"], sx=None, asx=r.get("asx"), inputs=r.get("inputs", []), times=r.get("times", 10), nout=None,
+                      kind=r.get("kind", "replay"))]
     else:
         off = 0
         for prof, n in plan:
@@ -56,66 +172,105 @@ def main(ctx, args):
             off += n
             for pr in progs:
                 nout = 1 if pr["prog"].dsp.ret == coregen.F else len(pr["prog"].dsp.ret) - 1
-                cases.append(dict(pr, nout=nout, kind="welltyped"))
+                cases.append(dict(pr, nout=nout, kind="welltyped", asx=pr["prog"].asx()))
                 for j in range(2):
+                    # every mutation kind is generated; accepted instances that crash on the pinned tree are classified against
+                    # the listed findings (K1 apply_var, K2 tuple width, K3 tuple-valued results, K4 tuple for scalar, K8/K10 arity, K9 arms)
                     name, q = coregen.mutant(pr["prog"], rng)
-                    # mutation kinds whose accepted instances crash on the pinned tree are listed findings (K1 apply_var,
-                    # K2 tup_drop, K3 lit_tuple/operand_tuple, K4 arg_tuple, K8 arg_drop): replayed from known_findings.jsonl, not generated
-                    if q is not None and name not in UNSAFE_KINDS:
-                        cases.append(dict(id=pr["id"] + f"|mut{j}:{name}", src=q.src(), sx=None, inputs=pr["inputs"], times=times, nout=None,
-                                          kind="mutant:" + name, prog=q))
+                    if q is not None:
+                        q = coregen.strip_record_annotations(q)
+                        cases.append(dict(id=pr["id"] + f"|mut{j}:{name}", src=q.src(), sx=None, asx=q.asx(), inputs=pr["inputs"], times=times,
+                                          nout=None, kind="mutant:" + name, prog=q))
     res = pc.run_batch(cases, want_model=False)
+    lean = lean_verdicts(cases)
     failures, stats, nontriv, samples = [], collections.Counter(), set(), []
+    matrix, outside, classed = collections.Counter(), collections.Counter(), collections.defaultdict(list)
+    infer_vs_ann = collections.Counter()
     for c in cases:
         vm, wasm, _ = res[c["id"]]
         stats["evaluations"] += 1
         stats[c["kind"].split(":")[0] + "_" + vm.split(" ")[0]] += 1
-        why = judge(vm, wasm, c["nout"], c["times"])
-        if c["kind"] == "welltyped" and why is None and not vm.startswith("ok"):
-            why = "well-typed program rejected: " + vm[:200]
-        if why is None:
+        if c["id"] not in lean:
+            if c.get("asx"):
+                failures.append((c, "the Lean checker driver gave no answer", vm, wasm))
+                continue
+            # replay of a bare source text: real side only
+            why = judge(vm, wasm, c["nout"], c["times"])
+            if why is not None:
+                failures.append((c, why, vm, wasm))
+            continue
+        cell, verdict, detail = classify(c, (vm, wasm), lean[c["id"]])
+        matrix[c["kind"].split(":")[0] + " " + cell] += 1
+        stats["lean_" + lean[c["id"]][0].split(" ")[0]] += 1
+        if c["kind"] != "welltyped":
+            infer_vs_ann["infer:" + lean[c["id"]][0].split(" ")[0] + " annotated:" + lean[c["id"]][1].split(" ")[0]] += 1
+        if verdict == "agree":
             if vm.startswith("ok") and pc.nontrivial(vm):
                 nontriv.add(hash(c["src"]))
             if c["kind"].startswith("mutant") and len(samples) < 4 and stats["evaluations"] % 157 == 11:
-                samples.append({"kind": c["kind"], "src": c["src"][:700], "vm_class": vm.split(" ")[0], "wasm_class": wasm.split(" ")[0]})
+                samples.append({"kind": c["kind"], "src": c["src"][:700], "vm_class": vm.split(" ")[0], "wasm_class": wasm.split(" ")[0],
+                                "lean": lean[c["id"]][0]})
+        elif verdict == "outside-model":
+            outside[cell + " " + detail] += 1
+        elif verdict.startswith("known:") and verdict[6:] in known_ids:
+            classed[verdict[6:]].append((c, detail))
         else:
-            failures.append((c, why, vm, wasm))
+            failures.append((c, detail if verdict == "violation" else f"class {verdict[6:]} is no longer a listed finding: " + detail, vm, wasm))
     kc = [dict(id=k["id"], src=k["src"], sx=None, inputs=k.get("inputs", []), times=k.get("times", 6)) for k in known if "src" in k]
     kres = pc.run_batch(kc, want_model=False, nshards=1) if kc else {}
     for k in known:
         if "src" not in k:
             continue
         why = judge(kres[k["id"]][0], kres[k["id"]][1], None, k.get("times", 6))
+        inst = classed.get(k["id"], [])
+        extra = ""
+        if inst:
+            kinds = collections.Counter(c["kind"].split(":")[-1] for c, _ in inst)
+            extra = f" [+{len(inst)} generated instances of the class: " + ", ".join(f"{a}×{b}" for a, b in kinds.most_common()) + "]"
         if why is not None:
-            ctx.known_finding(f"{k['id']} {k['what']} [still fails: {why[:100]}]")
+            ctx.known_finding(f"{k['id']} {k['what']} [still fails: {why[:100]}]" + extra)
+        elif inst:
+            ctx.known_finding(f"{k['id']} {k['what']} [the listed input no longer fails]" + extra)
         else:
             ctx.notes.append(f"known finding {k['id']} no longer reproduces")
     if failures:
         failures.sort(key=lambda f: len(f[0]["src"]))
         groups = collections.Counter(f[1].split(":")[0] + ":" + f[1][f[1].find(":") + 1:][:60] for f in failures)
         c, why, vm, wasm = failures[0]
-        rep = {"src": c["src"], "inputs": c["inputs"], "times": c["times"], "kind": c["kind"], "why": why, "vm": vm[:1500], "wasm": wasm[:1500],
-               "failing_cases": len(failures), "groups": dict(groups.most_common(12))}
-        if "prog" in c:
-            key = why.split(":")[0]
+        rep = {"src": c["src"], "asx": c.get("asx"), "inputs": c["inputs"], "times": c["times"], "kind": c["kind"], "why": why, "vm": vm[:1500],
+               "wasm": wasm[:1500], "lean": list(lean.get(c["id"], ())), "failing_cases": len(failures), "groups": dict(groups.most_common(12))}
+        if "prog" in c and c["id"] in lean:
+            key = classify(c, (vm, wasm), lean[c["id"]])[:2]
 
-            def still(src, sx, inputs):
-                r = pc.run_batch([dict(id="s", src=src, sx=None, inputs=inputs, times=c["times"])], want_model=False, nshards=1)["s"]
-                w = judge(r[0], r[1], None, c["times"])
-                return w is not None and w.split(":")[0] == key
-            rep["shrunk"] = pc.shrink_case(c, still)
-            rep["src"] = rep["shrunk"]["src"]
-        ctx.violation(f"a program accepted by the type checker does not run safely ({why[:200]}) — {len(failures)} cases; smallest:\n{rep['src']}", rep)
+            def still(q):
+                cc = dict(c, id="s", src=q.src(), asx=q.asx(), prog=q)
+                r = pc.run_batch([cc], want_model=False, nshards=1)["s"]
+                lv = lean_verdicts([cc])
+                return "s" in lv and classify(cc, (r[0], r[1]), lv["s"])[:2] == key
+            try:
+                q = coregen.shrink(c["prog"], still, 250)
+                rep["shrunk"] = {"src": q.src(), "asx": q.asx(), "inputs": c["inputs"], "times": c["times"]}
+                rep["src"], rep["asx"] = q.src(), q.asx()
+            except Exception as e:
+                rep["shrink_error"] = str(e)
+        ctx.violation(f"type-checker correspondence / safety of accepted programs ({why[:220]}) — {len(failures)} cases; smallest:\n{rep['src']}", rep)
     if not proved and not failures:
         ctx.violation("proof obligation broken: " + "; ".join(ctx._broken), {"stage": "prove", "theorems": ctx._broken,
                       "lake": getattr(ctx, "_lake_errors", "")}, found_input=False)
     ctx.coverage.update({
         "evaluations": stats["evaluations"],
         "distinct_nontrivial": len(nontriv),
-        "rule": "generated well-typed programs + 2 near-miss mutants each, %d samples on VM (hooks on) and WASM; outcome class per backend in {ok, compile-error, panic, runtime-error, harness-died}; non-trivial = accepted and output not constant" % times,
+        "rule": "generated well-typed programs + 2 near-miss mutants each (all mutation kinds), %d samples on VM (hooks on) and WASM; outcome class per backend in {ok, compile-error, panic, runtime-error, harness-died}; verdict of the Lean checker (infer + annotated) per case; non-trivial = real and Lean verdict agree, accepted, output not constant" % times,
         "samples": samples or [{"note": "replay mode"}],
         "traces_validated_against_impl": stats["evaluations"],
         "failures": len(failures),
         "outcomes": {k: v for k, v in stats.items() if "_" in k and k != "evaluations"},
+        "verdict_matrix": dict(sorted(matrix.items())),
+        "verdict_matrix_legend": "L+/L- Lean checker accepts/rejects, R+/R- real checker accepts/rejects (no diagnostic), ! = accepted by the real checker but not run safely (crash, one back end only, wrong width)",
+        "real_accepts_outside_core_model": dict(sorted(outside.items())),
+        "mutants_lean_infer_vs_generator_annotations": dict(sorted(infer_vs_ann.items())),
+        "outside_model_reasons": OUTSIDE_MODEL,
+        "always_rejected_kinds": sorted(ALWAYS_REJECTED),
+        "known_class_instances": {k: len(v) for k, v in sorted(classed.items())},
     })
     ctx.finish("proof")
